@@ -75,7 +75,7 @@ def opOk : Obs := [0]
 /-- `cc <sub> ...` ; returns (new tables, model cells, spec cells) -/
 def evalCC (st : ScanSt) (args : List String) : Option (ScanSt × Obs × Option Obs) :=
   match args with
-  | ["new", id] => do
+  | ["new", id] | ["default", id] => do      -- `new()` is `Default::default()`
       let id ← id.toNat?
       some ({ st with cc := setAt st.cc id (CCScanner.new, []) }, opOk, some opOk)
   | ["copy", a, b] => do
@@ -116,7 +116,7 @@ def evalCC (st : ScanSt) (args : List String) : Option (ScanSt × Obs × Option 
 
 def evalPN (st : ScanSt) (args : List String) : Option (ScanSt × Obs × Option Obs) :=
   match args with
-  | ["new", id] => do
+  | ["new", id] | ["default", id] => do
       let id ← id.toNat?
       some ({ st with pn := setAt st.pn id (PNScanner.new, []) }, opOk, some opOk)
   | ["copy", a, b] => do
